@@ -45,6 +45,11 @@ fn run_history(prop: &str, input: &T) -> T {
                 }
             }
         }
+        if flags & world::F_EXACTGAS != 0 {
+            if let Some(t) = txs.first().cloned() {
+                w.exact_gas_limit(&t);
+            }
+        }
         first = Some(txs);
     }
     let params = run::params_t(&w);
@@ -117,7 +122,8 @@ fn gen(prop: &str, rng: &mut Rng, n: u64, tier: &str) -> Vec<T> {
         let flags = if prop == "C05" {
             world::F_RELAYER | if k % 5 == 4 { world::F_TINYGAS } else { 0 }
         } else {
-            match k % 8 {
+            match k % 9 {
+            8 => world::F_EXACTGAS,
             0 | 1 | 2 => 0,
             3 => world::F_TINYGAS,
             4 => world::F_BADRECIPIENT,
